@@ -184,6 +184,88 @@ def nontrivial(step_res: dict) -> bool:
     return len(stubs) >= 2
 
 
+def selector_for(e: dict) -> dict:
+    """Structural fault selector for an event of a reference run (robust against small shifts of the
+    global event numbering, e.g. when a changed tool drops or adds a call)."""
+    op = e.get("op")
+    if op == "write":
+        return {"op": "write", "file": e.get("file"), "wn": e.get("wn")}
+    if op == "close":
+        return {"op": "close", "file": e.get("file")}
+    return {"op": op, "n": e.get("n")}
+
+
+def file_class(path: str, mode: str) -> str:
+    if path.endswith("__api.json"):
+        return "api_json"
+    if not path.endswith(".sdsstub"):
+        return "other"
+    if "a" in mode:
+        return "placeholder_append"
+    parts = path.split("/")
+    # module stubs and placeholders live in <module path>/<module>.sdsstub, re-export stubs directly in the package dir
+    if len(parts) >= 2 and parts[-1][: -len(".sdsstub")] == parts[-2].lstrip("_"):
+        return "module_or_placeholder_stub"
+    return "reexport_stub"
+
+
+FAULT_OPS = ("mkdir", "os_open", "utime", "open", "write", "close")
+
+
+def fault_strata(ref_events: list[dict]) -> dict[str, list[dict]]:
+    """{file class: [ {path, events:{op:[events]}} ]} over the writable files of a reference run.  The mkdir
+    events that really created an ancestor directory of a file are attributed to the first file below them."""
+    files: dict[int, dict] = {}
+    order: list[int] = []
+    by_path_latest: dict[str, int] = {}
+    pending_touch: dict[str, list] = {}
+    pending_mkdirs: list[dict] = []
+    for e in ref_events:
+        op = e.get("op")
+        if op == "mkdir":
+            pending_mkdirs.append(e)
+        elif op in ("utime", "os_open"):
+            pending_touch.setdefault(e.get("path"), []).append(e)
+        elif op == "open":
+            k = e.get("file")
+            files[k] = {"path": e.get("path"), "mode": str(e.get("mode", "")), "events": {"open": [e]}}
+            order.append(k)
+            by_path_latest[e.get("path")] = k
+            for t in pending_touch.pop(e.get("path"), []):
+                files[k]["events"].setdefault(t["op"], []).append(t)
+            mine = [m for m in pending_mkdirs if str(e.get("path", "")).startswith(str(m.get("path")) + "/")]
+            for m in mine:
+                files[k]["events"].setdefault("mkdir", []).append(m)
+                pending_mkdirs.remove(m)
+        elif op in ("write", "close") and e.get("file") in files:
+            files[e["file"]]["events"].setdefault(op, []).append(e)
+    strata: dict[str, list[dict]] = {}
+    for k in order:
+        f = files[k]
+        strata.setdefault(file_class(str(f["path"]), f["mode"]), []).append(f)
+    return strata
+
+
+def pick_fault_event(r, strata: dict[str, list[dict]]) -> dict | None:  # noqa: ANN001
+    """Stratified choice: file class (the API file weighted up: it is the one large, buffered write), then a
+    file of that class, then a step of its life cycle; for writes the first, a middle or the last one."""
+    classes = sorted(c for c in strata if c != "other") or sorted(strata)
+    if not classes:
+        return None
+    weights = [3.0 if c == "api_json" else 1.0 for c in classes]
+    cls = r.choices(classes, weights=weights)[0]
+    f = r.choice(strata[cls])
+    ops = [op for op in FAULT_OPS if f["events"].get(op)]
+    if not ops:
+        return None
+    op = r.choice(ops)
+    evs = f["events"][op]
+    if op == "write":
+        which = r.choice(["first", "mid", "last"])
+        return evs[0] if which == "first" else (evs[-1] if which == "last" else r.choice(evs))
+    return r.choice(evs)
+
+
 # --------------------------------------------------------------------------- known findings
 
 
